@@ -89,13 +89,13 @@ theorem targetOk_spec {g : Grammar} {t : Table} {s : Nat} {st : State} (hs : t.s
     · rename_i pr hpr; exact ⟨pr, hpr, hrhs⟩
     · simp at hrhs
 
-theorem Cert.structural_sound (g : Grammar) (t : Table) (start aug sym : Nat)
-    (h : Cert.structural g t start aug sym = true) : Structural g t start aug sym := by
+theorem Cert.structural_sound (g : Grammar) (t : Table) (autos : List Auto)
+    (h : Cert.structural g t autos = true) : Structural g t autos := by
   unfold Cert.structural at h
   simp only [Bool.and_eq_true] at h
-  obtain ⟨⟨⟨h1, h2⟩, h3⟩, h4⟩ := h
+  obtain ⟨⟨⟨⟨h1, h2⟩, h3⟩, h4⟩, h5⟩ := h
   have trans_cases : ∀ s X s', t.trans g s X s' →
-      ∃ st, t.states[s]? = some st ∧ s' ≠ start ∧ t.targetOk g st X s' = true := by
+      ∃ st, t.states[s]? = some st ∧ (∀ au ∈ autos, s' ≠ au.start) ∧ t.targetOk g st X s' = true := by
     intro s X s' htr
     unfold Table.trans at htr
     split at htr
@@ -103,15 +103,33 @@ theorem Cert.structural_sound (g : Grammar) (t : Table) (start aug sym : Nat)
       have := forStates_spec h3 hst
       simp only [Bool.and_eq_true] at this
       have := forCells_spec this.2 hm
-      simp only [Bool.and_eq_true, bne_iff_ne, ne_eq] at this
+      simp only [Bool.and_eq_true, List.all_eq_true, bne_iff_ne, ne_eq] at this
       exact ⟨st, hst, this.1, this.2⟩
     · obtain ⟨hA, st, hst, hm⟩ := goto_spec htr
       have := forStates_spec h4 hst
       have := forGotos_spec this hm
-      simp only [Bool.and_eq_true, bne_iff_ne, ne_eq] at this
+      simp only [Bool.and_eq_true, List.all_eq_true, bne_iff_ne, ne_eq] at this
       have hX : g.nterms + (X - g.nterms) = X := by omega
       rw [hX] at this
       exact ⟨st, hst, this.1, this.2⟩
+  have items_autos : ∀ s st, t.states[s]? = some st → ∀ it ∈ st.items, ∀ au ∈ autos,
+      (s ≠ au.start ∨ it.dot = 0) ∧ (s = au.start ∨ ¬ (it.prod = au.aug ∧ it.dot = 0)) := by
+    intro s st hst it hit au hau
+    have := forStates_spec h2 hst
+    rw [List.all_eq_true] at this
+    have := this it hit
+    rw [List.all_eq_true] at this
+    have := this au hau
+    simp only [Bool.and_eq_true, Bool.or_eq_true, bne_iff_ne, ne_eq, beq_iff_eq, Bool.not_eq_true',
+      Bool.and_eq_false_iff] at this
+    refine ⟨this.1, ?_⟩
+    rcases this.2 with h | h
+    · exact Or.inl h
+    · right
+      intro ⟨hp, hd⟩
+      rcases h with h | h
+      · simp [hp] at h
+      · simp [hd] at h
   constructor
   · -- item_prod
     intro s p d ⟨st, hst, it, hit, hp, hd⟩
@@ -124,17 +142,14 @@ theorem Cert.structural_sound (g : Grammar) (t : Table) (start aug sym : Nat)
       exact ⟨pr, hpr, by simpa using this⟩
     · simp at this
   · -- start_items
-    intro p d ⟨st, hst, it, hit, _, hd⟩
-    have := forStates_spec h2 hst
-    rw [List.all_eq_true] at this
-    have := this it hit
-    simp only [Bool.and_eq_true, Bool.or_eq_true, bne_iff_ne, ne_eq, not_true_eq_false, beq_iff_eq,
-      false_or] at this
-    omega
+    intro au hau p d ⟨st, hst, it, hit, _, hd⟩
+    rcases (items_autos _ st hst it hit au hau).1 with h | h
+    · exact absurd rfl h
+    · omega
   · -- no_into_start
-    intro s X htr
-    obtain ⟨_, _, hne, _⟩ := trans_cases s X start htr
-    exact hne rfl
+    intro au hau s X htr
+    obtain ⟨_, _, hne, _⟩ := trans_cases s X au.start htr
+    exact hne au hau rfl
   · -- target_items
     intro s X s' p d htr hi
     obtain ⟨st, hst, _, hok⟩ := trans_cases s X s' htr
@@ -157,21 +172,18 @@ theorem Cert.structural_sound (g : Grammar) (t : Table) (start aug sym : Nat)
     have := forStates_spec h3 hst
     simp only [Bool.and_eq_true] at this
     have := forCells_spec this.2 hm'
-    simp only [Bool.and_eq_true] at this
-    have h1' := this.1
+    simp only [List.any_eq_true, Bool.and_eq_true] at this
+    obtain ⟨au, hau, h1', h2'⟩ := this
+    refine ⟨au, hau, ?_⟩
     split at h1'
     · rename_i pr hpr
-      exact ⟨pr, hpr, by simpa using h1', hasItemB_spec hst this.2⟩
+      exact ⟨pr, hpr, by simpa using h1', hasItemB_spec hst h2'⟩
     · simp at h1'
   · -- aug_start_only
-    intro s ⟨st, hst, it, hit, hp, hd⟩
-    have := forStates_spec h2 hst
-    rw [List.all_eq_true] at this
-    have := this it hit
-    simp only [Bool.and_eq_true, Bool.or_eq_true, beq_iff_eq, Bool.not_eq_true', hp, hd] at this
-    rcases this.2 with h | h
+    intro au hau s ⟨st, hst, it, hit, hp, hd⟩
+    rcases (items_autos _ st hst it hit au hau).2 with h | h
     · exact h
-    · simp at h
+    · exact absurd ⟨hp, hd⟩ h
   · -- shift_term
     intro s a s' hm
     obtain ⟨st, hst, hm'⟩ := mem_cell hm
@@ -181,5 +193,15 @@ theorem Cert.structural_sound (g : Grammar) (t : Table) (start aug sym : Nat)
     rcases Nat.lt_or_ge a st.actions.size with h' | h'
     · omega
     · simp [Array.getD_eq_getD_getElem?, Array.getElem?_eq_none h'] at hm'
+  · -- distinct
+    intro a ha b hb hab
+    rw [List.all_eq_true] at h5
+    have := h5 a ha
+    rw [List.all_eq_true] at this
+    have := this b hb
+    simp only [Bool.or_eq_true, bne_iff_ne, ne_eq, decide_eq_true_eq] at this
+    rcases this with h | h
+    · exact absurd hab h
+    · exact h
 
 end Rustemo
